@@ -126,7 +126,7 @@ def firstDiff : Nat → List String → List String → String
 
 /-- scanner: correspondence model = real (token kinds, texts, line-break and comment flags, comments), and the
 model-free monitor: a scan without ILLEGAL token neither loses nor invents a character -/
-def runScan (r : Report) (sec line : Nat) (src : List Char) (lex prs : String) (t1 : List String) (what : String) : Report := Id.run do
+def runScan (r : Report) (sec line : Nat) (src : List Char) (lex prs : String) (t1 : List String) (what cls : String) : Report := Id.run do
   let mut r := r
   match Scan.scanAll src with
   | .err =>
@@ -157,7 +157,10 @@ def runScan (r : Report) (sec line : Nat) (src : List Char) (lex prs : String) (
   if lex == "ok" && prs == "ok" then
     let got := noWS (unescL (t1.flatMap wordText))
     if got != noWS src then
-      r := r.violation sec line s!"the scanner lost or invented characters ({what}): the token texts are not the source without white space: {String.ofList (escL (got.take 120))}"
+      let msg := s!"the scanner lost or invented characters ({what}): the token texts are not the source without white space: {String.ofList (escL (got.take 120))}"
+      -- the reproduction stream of the NUL defect (C20_NUL=1; not part of the default streams)
+      if cls == "nul-rune" then r := (r.violation sec line s!"[known-class nul-rune] {msg}").addCover "known-class-nul-rune"
+      else r := r.violation sec line msg
     else r := r.addCover "scan-conserves-characters"
   return r
 
@@ -201,6 +204,7 @@ def classExpects (cls : String) (kind : String) : Bool :=
   | "ml-comment" => kind == "idem"
   | "ctl-literal" => kind == "idem" || kind == "desc"
   | "star-slash" => kind == "rejected"
+  | "nul-rune" => kind == "cons"
   | _ => false
 
 def viol (r : Report) (sec line : Nat) (cls kind msg : String) : Report :=
@@ -250,7 +254,7 @@ def runFmt (r : Report) (sec : Nat) (line : Nat) (cfg : List String) (src : List
     r := r.addCover "panic"
     return r
   let t1all := sectionAfter obs "T1"
-  r := runScan r sec line src lex prs t1all "source"
+  r := runScan r sec line src lex prs t1all "source" cls0
   if lex != "ok" then
     r := r.addCover "scanner-error"
     if prs == "ok" || fmt == "ok" then
